@@ -173,9 +173,9 @@ Proof.
   intros. unfold sa_dupdate. apply acc_bind; [|intros _]; apply acc_for_each, acc_dupdate1.
 Qed.
 
-Lemma acc_dict_op : forall op, (forall m, op <> DIor m) -> acc (sa_dict_op op).
+Lemma acc_dict_op : forall op, acc (sa_dict_op op).
 Proof.
-  intros op Hn. destruct op; cbn [sa_dict_op];
+  intros op. destruct op; cbn [sa_dict_op];
     try (apply acc_bind; [|intros; apply acc_ret]).
   - apply acc_dsetitem.
   - apply acc_ddelitem.
@@ -184,32 +184,17 @@ Proof.
   - apply acc_dpopitem.
   - apply acc_dsetdefault.
   - apply acc_dupdate.
-  - exfalso. eapply Hn. reflexivity.
+  - apply acc_dupdate.
 Qed.
 
-Lemma d_update_same : forall m d,
-  forallb (fun kv => match d_get (fst kv) d with Some v => v =? snd kv | None => false end) m = true ->
-  d_update d m = d.
-Proof.
-  induction m as [|[k v] m IH]; intros d H; [reflexivity|]. cbn [forallb fst snd] in H.
-  apply andb_prop in H. destruct H as [H1 H2]. unfold d_update. cbn [fold_left fst snd].
-  destruct (d_get k d) as [v'|] eqn:E; [|discriminate]. assert (v' = v) by lia. subst.
-  rewrite d_set_same by assumption. apply IH. assumption.
-Qed.
-
+(* no exception: every dict operation is accounted and keeps the keys unique *)
 Theorem dict_op_accounted : forall op d g r d' g',
-  d_wf d -> dict_acct_guard d op = true ->
-  sa_dict_op op (d, g) = (r, (d', g')) ->
+  d_wf d -> sa_dict_op op (d, g) = (r, (d', g')) ->
   d_wf d' /\ forall x, countZ x (d_values d') - countZ x (d_values d) = net x g' - net x g.
 Proof.
-  intros op d g r d' g' W Hg H.
-  assert (D : (exists m, op = DIor m) \/ (forall m, op <> DIor m)).
-  { destruct op; try (right; intros; discriminate). left. eauto. }
-  destruct D as [[m ->]|D].
-  - cbn [sa_dict_op] in H. unfold bind, lift, ret in H. cbn [fst snd] in H. inv H.
-    cbn [dict_acct_guard] in Hg. rewrite (d_update_same _ _ Hg). split; [assumption|intro; lia].
-  - destruct (acc_dict_op op D (d, g) _ _ W H) as [W' B]. split; [exact W'|].
-    intro x. specialize (B x). unfold bal in B. cbn [fst snd] in B. lia.
+  intros op d g r d' g' W H.
+  destruct (acc_dict_op op (d, g) _ _ W H) as [W' B]. split; [exact W'|].
+  intro x. specialize (B x). unfold bal in B. cbn [fst snd] in B. lia.
 Qed.
 
 (* ====================================================================================== *)
@@ -269,7 +254,8 @@ Proof.
     destruct (dupdate_loop (upd_pairs u) d g) as [g1 E1].
     destruct (dupdate_loop kw (d_update d (upd_pairs u)) g1) as [g2 E2].
     unfold bind. rewrite E1, E2. cbn. auto.
-  - unfold bind, lift, ret. cbn. auto.
+  - unfold sa_dupdate. cbn [upd_pairs for_each].
+    destruct (dupdate_loop m d g) as [g1 E1]. unfold bind. rewrite E1. cbn. auto.
 Qed.
 
 (* ====================================================================================== *)
@@ -288,21 +274,13 @@ Proof.
   cbn [fst snd] in *. subst. auto.
 Qed.
 
-Fixpoint dict_guarded (ops : list dop) (s : st pydict) : bool :=
-  match ops with
-  | [] => true
-  | op :: r => dict_acct_guard (fst s) op && dict_guarded r (snd (sa_dict_op op s))
-  end.
-
 Theorem dict_history_accounted : forall ops d g, d_wf d ->
-  dict_guarded ops (d, g) = true ->
   let '(_, (d', g')) := sa_dict_run ops (d, g) in
   d_wf d' /\ forall x, countZ x (d_values d') - countZ x (d_values d) = net x g' - net x g.
 Proof.
-  induction ops as [|op r IH]; intros d g W Hg; cbn [sa_dict_run]; [split; [assumption|intro; lia]|].
-  cbn [dict_guarded fst] in Hg. apply andb_prop in Hg. destruct Hg as [G1 G2].
-  destruct (sa_dict_op op (d, g)) as [rv [d1 g1]] eqn:E. cbn [snd] in G2.
-  destruct (dict_op_accounted op d g rv d1 g1 W G1 E) as [W1 A].
-  specialize (IH d1 g1 W1 G2). destruct (sa_dict_run r (d1, g1)) as [xs [d2 g2]].
+  induction ops as [|op r IH]; intros d g W; cbn [sa_dict_run]; [split; [assumption|intro; lia]|].
+  destruct (sa_dict_op op (d, g)) as [rv [d1 g1]] eqn:E.
+  destruct (dict_op_accounted op d g rv d1 g1 W E) as [W1 A].
+  specialize (IH d1 g1 W1). destruct (sa_dict_run r (d1, g1)) as [xs [d2 g2]].
   destruct IH as [W2 B]. split; [assumption|]. intro x. specialize (A x). specialize (B x). lia.
 Qed.
